@@ -19,7 +19,9 @@ package yang
 import (
 	"errors"
 	"fmt"
+	"reflect"
 	"regexp/syntax"
+	"strings"
 	"sync"
 )
 
@@ -142,6 +144,59 @@ func (d *typeDictionary) resolveTypedefs() []error {
 		errs = append(errs, td.resolve(d)...)
 	}
 	return errs
+}
+
+// forgetResolvedTypes clears what type resolution has stored in the syntax
+// trees of ms: the resolved type of every type statement and of every typedef
+// that is not a built-in one.
+func (ms *Modules) forgetResolvedTypes() {
+	for _, td := range ms.typeDict.typedefs() {
+		if td.Parent != nil {
+			td.YangType = nil
+		}
+	}
+	seen := map[Node]bool{}
+	for _, set := range []map[string]*Module{ms.Modules, ms.SubModules} {
+		for _, m := range set {
+			forEachType(reflect.ValueOf(m), seen, func(t *Type) {
+				t.YangType = nil
+				t.resolveErrs = nil
+			})
+		}
+	}
+}
+
+// forEachType calls f for every type statement below the node v.
+func forEachType(v reflect.Value, seen map[Node]bool, f func(*Type)) {
+	if v.Kind() != reflect.Ptr || v.IsNil() || v.Elem().Kind() != reflect.Struct {
+		return
+	}
+	if n, ok := v.Interface().(Node); ok {
+		if seen[n] {
+			return
+		}
+		seen[n] = true
+	}
+	if t, ok := v.Interface().(*Type); ok {
+		f(t)
+	}
+	e := v.Elem()
+	for i := 0; i < e.NumField(); i++ {
+		// Only what was built from substatements: the fields with a
+		// keyword as tag (not Parent, not the statement, not Modules).
+		tag := strings.Split(e.Type().Field(i).Tag.Get("yang"), ",")[0]
+		if tag == "" || tag == "Name" || tag == "Statement" || tag == "Parent" || tag == "Ext" {
+			continue
+		}
+		switch fv := e.Field(i); fv.Kind() {
+		case reflect.Ptr:
+			forEachType(fv, seen, f)
+		case reflect.Slice:
+			for k := 0; k < fv.Len(); k++ {
+				forEachType(fv.Index(k), seen, f)
+			}
+		}
+	}
 }
 
 // resolve creates a YangType for t, if not already done.  Resolving t
